@@ -30,7 +30,7 @@ def rules_for(prop):
     CODEC = ("rxsci/data/codec.py",)
     FILEIO = ("rxsci/io/file.py",)
     table = {
-        "C01": per_subscription() + [mx.rule_ev1, ag.rule_ag1, ag.rule_ag2, ag.rule_ag3_small, ag.rule_ag3_map_filter, ag.rule_ag3_do_action, scan.rule_sc1, scan.rule_sd2, tm.rule_tm4, st.rule_st5, seq.rule_fw2],
+        "C01": per_subscription() + [mx.rule_ev1, ag.rule_ag1, ag.rule_ag2, ag.rule_ag3_small, ag.rule_ag3_map_filter, ag.rule_ag3_do_action, scan.rule_sc1, scan.rule_sd2, tm.rule_tm4, st.rule_st5, seq.rule_fw2, ms.rule_ms, ms.rule_tp1],
         "C02": st.RULES + [ms.rule_tp1, ms.rule_ms, tm.rule_tm5, scan.rule_sd1, mx.rule_mx6],
         "C03": mx.RULES + [st.rule_st8, ms.rule_ms, ms.rule_tp1, sub.rule_sub3],
         "C04": [named(grp.rule_fwd1, heads=("group_by",)), named(grp.rule_eq1, files=("rxsci/operators/group_by.py", "rxsci/state/memory_store.py", "rxsci/state/store.py",
